@@ -415,6 +415,12 @@ def run(ctx):
                 if isinstance(c, ast.Call) and call_name(c) == "append" and c.args and isinstance(c.args[0], ast.Name) and c.args[0].id == var \
                         and isinstance(c.func.value, ast.Name):
                     consumed = c.func.value.id
+        if consumed is not None and consumed not in child_arrays:
+            # an alias of a children array: a local bound to one of them, or to a frame's `parent_children` / an element's `children`
+            for a_ in walk_own(w2j.node):
+                if isinstance(a_, ast.Assign) and any(isinstance(t_, ast.Name) and t_.id == consumed for t_ in a_.targets):
+                    if ({n_.id for n_ in ast.walk(a_.value) if isinstance(n_, ast.Name)} & child_arrays) or any(isinstance(c_, ast.Constant) and c_.value in ("parent_children", "children") for c_ in ast.walk(a_.value)):
+                        child_arrays.add(consumed)
         r6.check(consumed in child_arrays, f"workbook_to_json:helper {norm(keys['name'])[:50]}", "generated row is appended to a children array of the tree",
                  w2j.loc(d), why_fail=f"consumed by {consumed}")
     # jr:count redirection uses the same variable as the helper's name
@@ -426,8 +432,13 @@ def run(ctx):
         r6.check(isinstance(x.value, ast.JoinedStr) and helper_named and norm(x.value).replace(" ", "").startswith("f'${{"),
                  "workbook_to_json:jr:count redirect", "the repeat count refers to ${<the generated node's name variable>}", w2j.loc(x))
     # meta block is appended to the survey's own children
-    sca = [x for x in walk_own(w2j.node) if isinstance(x, ast.Assign) and isinstance(x.targets[0], ast.Name) and x.targets[0].id == "survey_children_array"]
-    r6.check(len(sca) == 1 and norm(sca[0].value) == "stack[0]['parent_children']", "workbook_to_json:meta parent", "the meta block goes to the root frame's children", w2j.loc())
+    # (evaluated in C11.R5: the meta block, through the final return, appends one bodyless `meta` group to the root frame's
+    # children - shared here)
+    from . import c11 as _c11
+    from .c08 import _take as _take2
+    n6 = len(r6.obligations)
+    _take2(r6, _c11.run(ctx), "C11.R5", lambda c: c.startswith("meta["))
+    r6.check(len(r6.obligations) - n6 >= 8, "workbook_to_json:meta parent", "the meta-block obligations of C11.R5 were evaluated (the block goes to the root frame's children)", w2j.loc())
     st0 = [x for x in walk_own(w2j.node) if isinstance(x, ast.AnnAssign | ast.Assign) and norm(getattr(x, "target", None) or x.targets[0]) == "stack"]
     r6.check(bool(st0) and "json_dict.get(constants.CHILDREN)" in norm(st0[0].value), "workbook_to_json:root frame", "the root frame's children list is the JSON root's children list", w2j.loc())
     rules.append(r6)
